@@ -320,6 +320,13 @@ def _run_tight(case):
             if np.any(np.abs(mh) < 4 * sh):
                 fails.append(Failure("excluded:relu_kink_in_mass", f"eps={eps}"))
                 continue
+            # ... and only while the link argument still has a resolvable spread at the SMALLER weight scale: with sd(h) below
+            # 1e-4 |E h| (a strongly biased unit, |w0| ~ 30, with weights scaled down to 1e-5) the bound's own arithmetic sits at
+            # a noise floor of ~1e-6 of the value, above the decay being measured (counted, not judged)
+            sh_small = sh / 10.0
+            if np.any(sh_small < 1e-4 * np.maximum(1.0, np.abs(W0[:, 0]))):
+                fails.append(Failure("excluded:relu_spread_unresolvable", f"eps={eps}"))
+                continue
         # slack 1e-7 relative to the size of the value (as in the bound sub-check): bound and truth are each accurate to
         # ~1e-8 of their magnitude, and the variational parameters come from a fixed-point iteration stopped at 1e-5
         if g2 > max(g1, 0.0) / 30.0 + 1e-7 * tmag:
@@ -346,10 +353,10 @@ SUBS = [
     Sub("coherence", _pool, _strategy("coherence"), _run_coherence, lambda c: c["Dy"] >= 2 or c["Dk"] >= 2, _labels,
         examples={"quick": 120, "thorough": 600}, shards={"quick": 4, "thorough": 8}, rule="Dy>=2 or Dk>=2"),
     Sub("bound", _pool, _strategy("bound"), _run_bound, _overlap, _labels,
-        examples={"quick": 14, "thorough": 250}, shards={"quick": 16, "thorough": 28}, rule="some unit with |E h| <= 3 sd(h)"),
+        examples={"quick": 14, "thorough": 90}, shards={"quick": 16, "thorough": 28}, rule="some unit with |E h| <= 3 sd(h)"),
     Sub("long_batch", lambda tier: [(1, 1, 1, 1, 600), (1, 2, 2, 1, 1100), (2, 1, 1, 1, 700)] + ([(1, 1, 2, 2, 2100)] if tier == "thorough" else []),
         _strategy("bound"), _run_bound, _overlap, _labels,
         examples={"quick": 4, "thorough": 12}, shards={"quick": 3, "thorough": 4}, rule="as bound; N = 600..2100 paired observations, 6 rows judged"),
     Sub("tightness", lambda tier: [p for p in _pool(tier) if p[3] == 1 or p[0] == 1], _strategy("tight"), _run_tight, _overlap, _labels,
-        examples={"quick": 5, "thorough": 80}, shards={"quick": 14, "thorough": 24}, rule="some unit with |E h| <= 3 sd(h)"),
+        examples={"quick": 5, "thorough": 30}, shards={"quick": 14, "thorough": 24}, rule="some unit with |E h| <= 3 sd(h)"),
 ]
